@@ -1349,7 +1349,9 @@ _PASS_THROUGH = ("DerefMut::deref_mut", "IndexMut::index_mut", "chunks_exact_mut
                  "Iterator::peekable", "peekable", "Peekable::peek_mut", "peek_mut", "split_at_mut", "IntoIterator::into_iter", "into_iter", "AsMut::as_mut", "as_mut_slice",
                  "Iterator::skip", "Iterator::take", "Iterator::rev", "Iterator::zip", "Iterator::step_by", "first_mut", "last_mut", "get_mut", "Option::unwrap", "Option::expect",
                  # moving a slice *reference* around changes no byte: mem::take / replace / swap of a `&mut [u8]` variable, splitting
-                 "mem::take", "mem::replace", "mem::swap", "split_first_mut", "split_last_mut", "split_at_mut_checked", "Option::take")
+                 "mem::take", "mem::replace", "mem::swap", "split_first_mut", "split_last_mut", "split_at_mut_checked", "Option::take",
+                 # reading through a mutable view changes nothing
+                 "ByteOrder::read_u16", "ByteOrder::read_u32", "ByteOrder::read_u64", "<impl [T]>::len", "slice::len", "is_empty")
 
 
 def _is_block_mut_ty(ty):
